@@ -338,8 +338,13 @@ def _first_is_str(repo: Repo, f, pathv: str, cs, depth: int = 0) -> str | None:
                     continue
                 for c in ast.walk(st):
                     if isinstance(c, ast.Call) and callee_name(c) == f.name and (is_name(c.func, f.name) or (isinstance(c.func, ast.Attribute) and is_name(c.func.value, "self"))):
-                        callers += 1
                         bound = bind_args(c, f.node, skip_self=isinstance(c.func, ast.Attribute)) or {}
+                        # a call site that passes a non-None value for a parameter the helper's
+                        # `_segments_str` call is conditional on being None never gets there
+                        need_none = {canon(k)[: -len(" is None")] for k in cs if canon(k).endswith(" is None")}
+                        if any(isinstance(bound.get(p_), ast.JoinedStr) or (isinstance(bound.get(p_), ast.Constant) and bound[p_].value is not None) for p_ in need_none):
+                            continue
+                        callers += 1
                         a = bound.get(pathv)
                         if not isinstance(a, ast.Name):
                             return f"{g.qual}: `{text(c)[:60]}` does not hand a named path to {f.name}"
